@@ -3,7 +3,7 @@
 # except B8 + C17 (same recorded race under a renamed function).
 W=${VERIF_SCRATCH:-/tmp/mw}
 [ -d $W ] || git -C /repo worktree add -q --detach $W HEAD
-for p in /verif/seeded/benign/B*.diff; do
+for p in $(ls /verif/seeded/benign/B*.diff | grep -v pre-); do
   (cd $W && git reset -q --hard && git clean -fdq && git checkout -q --detach $(git -C /repo rev-parse HEAD) && { git apply $p 2>/dev/null || git apply --3way $p; } && git reset -q) || { echo "$p does not apply"; continue; }
   echo "### $(basename $p)"
   (cd /verif && tools/ben_run.sh $W "$@")
